@@ -413,6 +413,24 @@ def tank_leak_spec(demand_model="DD"):
     return s
 
 
+def curve_end_at_limit_spec(side="max"):
+    """seeded/C06-8: the volume curve's last (first) point sits exactly at max_level (min_level); the tank is driven to that limit
+    with one-hour steps: the backtrack must come from the volume beyond the curve end"""
+    s = _base(3600, 4)
+    s["curves"]["VC"] = {"type": "VOLUME", "points": [[1.0, 30.0], [3.0, 120.0], [6.0, 300.0]]}
+    s["junctions"].append({"name": "J", "elev": 0.0, "demand": 0.0 if side == "max" else 0.03, "pattern": None})
+    s["tanks"].append({"name": "T", "elev": 20.0, "init": 4.0 if side == "max" else 2.5, "min": 1.0, "max": 6.0, "diam": 8.0, "curve": "VC"})
+    if side == "max":
+        s["reservoirs"].append({"name": "R", "head": 45.0})
+        s["pipes"] += [{"name": "P1", "start": "R", "end": "J", "length": 300.0, "diam": 0.2, "rough": 100.0, "cv": False, "status": "OPEN"},
+                       {"name": "P2", "start": "J", "end": "T", "length": 300.0, "diam": 0.2, "rough": 100.0, "cv": False, "status": "OPEN"}]
+    else:
+        s["reservoirs"].append({"name": "R", "head": 5.0})
+        s["pipes"] += [{"name": "P1", "start": "R", "end": "J", "length": 3000.0, "diam": 0.08, "rough": 100.0, "cv": True, "status": "OPEN"},
+                       {"name": "P2", "start": "T", "end": "J", "length": 300.0, "diam": 0.25, "rough": 100.0, "cv": False, "status": "OPEN"}]
+    return s
+
+
 def volcurve_clamp_spec():
     """DESIGN §6 C06: curve (0,0),(2,100),(4,400),(6,500), max_level 5.5, one-hour step"""
     return {
@@ -893,25 +911,36 @@ class Lean:
 
 
 _MODE = None
+PROBE_BROKEN = []  # (name, detail) the checks report as Broken("correspondence", ...)
 
 
 def probe_mode():
     """which curve lookup the implementation under test uses: 'clamp' (np.interp clamps outside the volume curve) or
-    'extrap' (repair fixes/C06-volcurve-extrapolate: the end segments are continued).  Probed on the real Tank.get_volume and
-    update_tank_heads; the Lean model has both (Tank.extrap) and is told which one to be diffed against."""
+    'extrap' (the end segments are continued).  Probed on the real update_tank_heads and Tank.get_volume; the Lean model has both
+    (Tank.extrap) and is told which one to be diffed against.  Never raises: anything unexpected goes to PROBE_BROKEN and the
+    mode update_tank_heads shows (or, failing that, get_volume's) is used, so that the simulation oracles still run."""
     global _MODE
     if _MODE is None:
         wntr = vlib.import_wntr()
-        wn, tank = make_real_tank(wntr, dict(elev=0.0, min=0.0, max=1.0, diam=1.0, curve=[(0.0, 0.0), (1.0, 10.0)]))
-        gv = float(tank.get_volume(2.0))
-        up = real_upd(wntr, wn, tank, dict(prev=0.5, head=0.5, demand=1.0, dt=10.0))  # V 5 -> 15
-        if gv == 10.0 and up == 1.0:
-            _MODE = "clamp"
-        elif gv == 20.0 and up == 1.5:
-            _MODE = "extrap"
-        else:
-            raise vlib.BrokenTie("curve lookup is neither np.interp clamping nor end-segment extrapolation: get_volume(2.0)=%r on curve (0,0),(1,10); "
-                                 "update_tank_heads from level 0.5 with 10 m3 inflow gives level %r" % (gv, up))
+        gv = up = None
+        try:
+            wn, tank = make_real_tank(wntr, dict(elev=0.0, min=0.0, max=1.0, diam=1.0, curve=[(0.0, 0.0), (1.0, 10.0)]))
+            gv = float(tank.get_volume(2.0))
+        except Exception as e:  # noqa
+            PROBE_BROKEN.append(("Tank.get_volume probe", "Tank.get_volume(2.0) on curve (0,0),(1,10) raised %s: %s" % (type(e).__name__, e)))
+        try:
+            wn, tank = make_real_tank(wntr, dict(elev=0.0, min=0.0, max=1.0, diam=1.0, curve=[(0.0, 0.0), (1.0, 10.0)]))
+            up = real_upd(wntr, wn, tank, dict(prev=0.5, head=0.5, demand=1.0, dt=10.0))  # V 5 -> 15
+        except Exception as e:  # noqa
+            PROBE_BROKEN.append(("update_tank_heads probe", "update_tank_heads on a never-simulated model raised %s: %s" % (type(e).__name__, e)))
+        mu = {1.0: "clamp", 1.5: "extrap"}.get(up)
+        mg = {10.0: "clamp", 20.0: "extrap"}.get(gv)
+        if mu is not None and mg is not None and mu != mg:
+            PROBE_BROKEN.append(("curve lookup probe", "update_tank_heads %s (level %r) but Tank.get_volume %s (get_volume(2.0)=%r): the two lookups are "
+                                 "no longer inverse to each other outside the curve" % (mu + "s", up, mg + "s", gv)))
+        if mu is None and mg is None and not PROBE_BROKEN:
+            PROBE_BROKEN.append(("curve lookup probe", "neither clamping nor end-segment extrapolation: get_volume(2.0)=%r, level after update %r" % (gv, up)))
+        _MODE = mu or mg or "extrap"
     return _MODE
 
 
@@ -1109,6 +1138,14 @@ def synthetic_lvl_cases(rng, p, n):
         out.append(dict(attr=attr, rel=rng.choice(["ge", "gt", "le", "lt"]), thr=thr_l + off, head=cur + p["elev"],
                         demand=demand, last=last + off, kind=kind))
     return out
+
+
+def safe_call(fn, *a):
+    """(result, None) or (None, 'ExcType: text') -- a direct call of a real function must never abort the check"""
+    try:
+        return fn(*a), None
+    except Exception as e:  # noqa
+        return None, "%s: %s" % (type(e).__name__, e)
 
 
 def real_upd(wntr, wn, tank, c):
